@@ -66,6 +66,10 @@ pub fn freeform_input(env: &Env, rng: &mut Rng, j: usize) -> String {
             b.nfd().collect()
         }
         3 => gen::random_string(p, rng, gen::MIX_HOSTILE, 16),
+        4 => {
+            let core = gen::name_like(p, rng, 6);
+            gen::edge_whitespace(p, rng, &core)
+        }
         _ => gen::random_string(p, rng, gen::MIX_FREEFORM, 24),
     }
 }
@@ -75,12 +79,12 @@ const ALPHA: [char; 8] = [' ', '\u{A0}', 'a', '\u{E9}', '\u{20AC}', '\u{1F600}',
 pub fn run(env: &Env) -> Rec {
     let mut rec = Rec::new();
     let d16 = env.d16();
-    let max_len = if env.quick() { 5 } else { 6 };
+    let max_len = if env.quick() { 5 } else { 7 };
     // every Zs at every position: exhaustive over {SP, z, a, e-acute, euro, emoji, fullwidth A, A} for each non-ASCII Zs z
     let zs: Vec<char> = d16.zs.iter().filter_map(|c| char::from_u32(*c)).filter(|c| *c != ' ').collect();
     let total = util::n_strings(8, max_len);
     let per = 4096usize;
-    let nz = if env.quick() { 4 } else { zs.len() };
+    let nz = if env.quick() { zs.len() } else { zs.len() };
     // quick: a rotating subset of the Zs code points (seed dependent) gets the full enumeration
     let r1 = par(nz * total.div_ceil(per), |c, rec| {
         let zi = c / total.div_ceil(per);
@@ -139,7 +143,7 @@ pub fn run(env: &Env) -> Rec {
         }
         let _ = cp;
     }
-    let n = env.n(200_000, 8_000_000);
+    let n = env.n(2_000_000, 60_000_000);
     let per = 1000usize;
     let r3 = par(n.div_ceil(per), |c, rec| {
         let mut rng = Rng::stream(env.seed, 0x05_0000 + c as u64);
@@ -149,6 +153,13 @@ pub fn run(env: &Env) -> Rec {
         }
     });
     rec.merge(r3);
+    let n_long = env.n(15_000, 500_000);
+    let per = 200usize;
+    let r4 = par(n_long.div_ceil(per), |c, rec| {
+        let mut rng = Rng::stream(env.seed, 0x05_C000 + c as u64);
+        super::hostile::drive(&mut rng, per, 65536, |rng| { let j = rng.below(8); let s = freeform_input(env, rng, j); s.chars().take(6).collect() }, |s| check(env, s, rec));
+    });
+    rec.merge(r4);
     check(env, "", &mut rec);
     rec
 }
